@@ -23,8 +23,8 @@ CLAIMED = {
          "Go race detector + solo-reference differential + porcupine linearizability check over failpoint-perturbed stress runs", "4/C09"),
  "C10": ("exploration",
          "A catalogue of 42 template programs (every directive, includes, slots, layouts, filters, failing templates) lives in one filesystem; all ordered pairs, 20-fold repetitions and seeded sequences are rendered on one long-lived engine through four entry points and every step's bytes and error are compared with the same program on a fresh engine; caller data is deep-compared before/after; every program prints the inner-scope variable names of all programs (leak probes); hooks assert that pooled scope maps and builders are handed out empty. Thorough tier repeats under -race.",
-         "reference = fresh-engine render; catalogue coverage, not all templates; error text compared literally.",
-         "history monitor: byte-equality against a fresh-engine reference + invariant hooks on pooled state", "4/C10"),
+         "reference = fresh-engine render (its hash recorded per worker process and compared between the 16 processes, whose render histories differ); catalogue coverage, not all templates; error text compared literally.",
+         "history monitor: byte-equality against a fresh-engine reference + invariant hooks on pooled state + offline check that all worker processes recorded the same reference bytes", "4/C10"),
  "C11": ("exploration",
          "Isolated worker processes (ulimit, watchdog, begin/end marker per case) feed the real engine random bytes, token soup and mutated corpus files as templates and front-matter, every typed value of a 45-value catalogue in every directive position (exhaustive), every include graph over 3 files x 4 include forms (exhaustive) and layout cycles/chains. A recovered panic, a process-fatal error attributed by the marker, or a logical bound exceeded at the engine's hooks (include chain, evaluate depth/steps, serialiser steps, layout iterations) is a violation; a watchdog firing alone is inconclusive.",
          "harness functions are total; self-referential maps not generated; bounded progress is decided on logical counters, not wall-clock.",
